@@ -80,7 +80,8 @@ def scenario_source(kind, name):
         from pv.harness import Cov
 
         cfg, meta = scenario_source(*name["base"])
-        cfg = mutate_settings(cfg, _random.Random(name["settings_seed"]), Cov(), None, p_nodes=name.get("p_nodes", 0.6))
+        cfg = mutate_settings(cfg, _random.Random(name["settings_seed"]), Cov(), None, p_nodes=name.get("p_nodes", 0.6),
+                              p_repeat_scan=name.get("p_repeat_scan", 0.3))
         if name.get("defender_first"):  # the same agents, the RL agent declared first (before the agents whose rewards it shares)
             cfg["agents"] = sorted(cfg["agents"], key=lambda a: a.get("type") != "proxy-agent")
         meta = dict(meta, name=f"{meta['name']}~settings{name['settings_seed']}")
